@@ -231,6 +231,9 @@ SPECIAL_TEXTS = [
     'POLYGON((0 0,1 0,1 1,0 0),(0 0,1 1,2 2,0 0))', 'POLYGON ((0 0,1 0,1 1,0 0))', 'POLYGON((0 0,1 0,1 1,0 0)) ',
     'POLYGON(((0 0,1 0,1 1,0 0)))', 'POLYGON((0 0 5,1 0 5,1 1 5,0 0 5))',
     'MULTIPOINT((0 0),(1 1))', 'MULTIPOINT ((0 0), (1 1))', 'MULTIPOINT(0 0, 1 1)', 'MULTIPOINT(0 0)', 'MULTIPOINT()', 'MULTIPOINT Z(0 0 1, 1 1 2)',
+    # the OGC multipoint form (repair D41) and its near misses
+    'MULTIPOINT Z ((0 0 5), (1 1 6))', 'MULTIPOINT((0 0, 1 1))', 'MULTIPOINT((0 0) (1 1))', 'MULTIPOINT(())', 'MULTIPOINT((0 0),(1 1)',
+    'MULTIPOINT((0 0)),(1 1))', 'MULTIPOINT((0 0),1 1)', 'MULTIPOINT(0 0,(1 1))', 'MULTIPOINT(((0 0)))', 'MULTIPOINT ( (0 0) , (1 1) )', 'multipoint((0 0))',
     'MULTILINESTRING((0 0,1 1),(2 2,3 3))', 'MULTILINESTRING((0 0,1 1))', 'MULTILINESTRING(0 0,1 1)', 'MULTILINESTRING((0 0,1 1)(2 2,3 3))',
     'MULTILINESTRING()', 'MULTILINESTRING (( 0 0,1 1))',
     'MULTIPOLYGON(((0 0,1 0,1 1,0 0)))', 'MULTIPOLYGON(((0 0,1 0,1 1,0 0)),((5 5,6 5,6 6,5 5)))', 'MULTIPOLYGON(((0 0,1 0,1 1,0 0))((5 5,6 5,6 6,5 5)))',
@@ -247,6 +250,7 @@ TOKEN_SPECIALS = [
     'POLYGON((0 0,1 0,1 1,0 0))', 'POLYGON((0 0,1 0,1 1))', 'POLYGON((0 0,0 1,1 1,0 0))', 'POLYGON(0 0,1 0,1 1,0 0)', 'POLYGON((0 0))',
     'POLYGON((0 0,1 0,1 1,0 0),(0 0,1 1,2 2,0 0))', 'POLYGON(((0 0,1 0,1 1,0 0)))', 'POLYGON((0 0 5,1 0 5,1 1 5,0 0 5))',
     'MULTIPOINT((0 0),(1 1))', 'MULTIPOINT(0 0, 1 1)', 'MULTIPOINT(0 0)', 'MULTIPOINT Z(0 0 1, 1 1 2)', 'MULTILINESTRING((0 0,1 1),(2 2,3 3))',
+    'MULTIPOINT Z ((0 0 5), (1 1 6))', 'MULTIPOINT((0 0, 1 1))', 'MULTIPOINT((0 0),(1 1),(2.5 3))', 'multipoint((0 0))',
     'MULTILINESTRING(0 0,1 1)', 'MULTIPOLYGON(((0 0,1 0,1 1,0 0)))', 'MULTIPOLYGON(((0 0,1 0,1 1,0 0)),((5 5,6 5,6 6,5 5)))',
     'MULTIPOLYGON(((0 0,4 0,4 4,0 0),(1 0.5,2 0.5,2 1.5,1 0.5)))', 'MULTIPOLYGON((0 0,1 0,1 1,0 0))', 'multipolygon(((0 0,1 0,1 1,0 0)))',
 ]
@@ -453,6 +457,19 @@ def main():
             agree += 1
         else:
             pyviol.append((m, 'independent_reader', 'shapely.from_wkt(text) differs from shape.to_shapely()'))
+        # the other direction: the text an independent WRITER produces for the same geometry is read back as the shape
+        if spec['kind'] in SIMPLE and not obj.has_z and not obj.has_m:      # (the Shapely bridge is 2-D)
+            try:
+                stext = obj.to_shapely().wkt
+            except Exception as ex:   # noqa
+                continue
+            for how, fn in (('Type.from_wkt', lambda: SIMPLE[spec['kind']].from_wkt(stext)), ('parse_wkt', lambda: parse_wkt(stext))):
+                back = guarded(fn)
+                if back[0] != 'Ok' or not back[1] == obj.copy().strip_dt():
+                    pyviol.append((dict(m, shapely_text=stext[:300]), 'independent_writer',
+                                   f'{how} of the text Shapely writes for the shape gives {back[1] if back[0] != "Ok" else "another shape"}'))
+                else:
+                    ck.count('shapely-written text read back')
     ck.cov['shapely_agreement'] = agree
 
     # ---- 5. malformed stream: fixed special texts x every reader; every single-character corruption of valid texts
@@ -472,7 +489,7 @@ def main():
     # that fails deep in the text (3 s for a 100-character polygon with one stray character, also after repair
     # D33), so those types use short bases; longer decimal-form ones only in the thorough tier.
     bases = [('TPoint', 'POINT(12.5 -3.25)'), ('TPoint', 'POINT(1.0 2.0 3.5)'), ('TPoint', 'POINT Z (1 2 1500.5)'),
-             ('TLine', 'LINESTRING(0.0 0.0,1.5 1.0)'), ('TMPoint', 'MULTIPOINT(0.0 0.0, 1.0 1.5)'),
+             ('TLine', 'LINESTRING(0.0 0.0,1.5 1.0)'), ('TMPoint', 'MULTIPOINT(0.0 0.0, 1.0 1.5)'), ('TMPoint', 'MULTIPOINT((0.5 0.0), (1.0 1.5))'),
              ('TPoly', 'POLYGON((0 0,4 0,0 4), (1 1,1 2,2 1))'), ('TMLine', 'MULTILINESTRING((0 0,1 1), (2 2,3 3))'),
              ('TMPoly', 'MULTIPOLYGON(((0 0,4 0,0 4)), ((9 9,8 9,9 8)))')]
     if not quick:
